@@ -56,4 +56,16 @@ def handleChain (j : Json) : E Json := do
   | .ok _ => pure (jobj [("ok", jbool true)])
   | .error e => pure (jobj [("ok", jbool false), ("err", jstr (errName e))])
 
+/-- the algorithm tables as functions (C02): hash of an algorithm number, algorithm of a key
+    specification, key specification of a key -/
+def handleAlgTable (j : Json) : E Json := do
+  match (← fldStr j "q") with
+  | "hash" => pure (jobj [("hash", jnat (Algorithm.hash (← fldNat j "alg")))])
+  | "sigalg" => pure (jobj [("alg", jnat (signatureAlgorithm ⟨← fldNat j "type", ← fldNat j "size"⟩))])
+  | "keyspec" =>
+    match extractKeySpec (← keyOf (← fld j "key")) with
+    | some ks => pure (jobj [("ok", jbool true), ("type", jnat ks.type), ("size", jnat ks.size)])
+    | none => pure (jobj [("ok", jbool false)])
+  | q => throw s!"algtable: unknown question {q}"
+
 end DriverLib
